@@ -1,5 +1,6 @@
 pub mod echo;
 pub mod hash;
+pub mod nsprobe;
 
 pub type LaneFn = fn(&str) -> String;
 
@@ -7,6 +8,7 @@ pub fn find(name: &str) -> Option<LaneFn> {
     Some(match name {
         "echo" => echo::run,
         "hash" => hash::run,
+        "nsprobe" => nsprobe::run,
         _ => return None,
     })
 }
